@@ -178,6 +178,9 @@ def main():
     for i in lpf[:3]:
         why = [w for j, w in ldirect if j == i][:2] or ["a view differs from the orders placed/adopted with that key"]
         ck.fail("C15-views", why[0], {"case": cases[i], "how": "harness/impl/livelib.py run_live_orders on a real Flumine"})
+    # the BETDAQ path of a live Flumine (outside the Coq live model): placements whose answer the order poll overtakes, matches, polls, price changes, cancels
+    import betdaqcheck
+    betdaqcheck.run_family(ck, rng, 60 if thorough else 20, "betdaq_live_list", ("C15",))
     return ck.finish("all blotter views (by strategy, strategy+selection, client, client+strategy, trade, bet id, live list) and lookups dumped at every strategy call of simulation runs (2-3 strategies, 1-2 clients, 1-2 markets, replacements) and after every step of live scripts (placements, acknowledgements, order-stream snapshots completing/adopting orders incl. unknown strategies, polls of the paper-trading order stream, closures followed by late stream updates); compared in Coq with the model applied to the blotter's own order list; shadow list over time (nothing lost, reordered or duplicated; live list)")
 
 
